@@ -545,9 +545,19 @@ pub fn c06(out: &mut Out, thorough: bool) {
     let corpus = load_corpus();
     let mut accepted = 0u64;
     let mut emit = |out: &mut Out, kind: &str, bytes: &[u8], rng: &mut Rng| {
-        let res = chess_movegen::fen::parse_fen(bytes);
-        out.case(kind, true, format!("fen parse {}", hexbytes(bytes)), || parse_answer(bytes));
-        if let Ok(b) = res {
+        let mut res = None;
+        out.case(kind, true, format!("fen parse {}", hexbytes(bytes)), || {
+            let r = chess_movegen::fen::parse_fen(bytes);
+            res = r.as_ref().ok().copied();
+            match r {
+                Ok(b) => {
+                    let v = view(&b);
+                    format!("ok {} {}", pos64(&v), derived(&v))
+                }
+                Err(e) => format!("err {}", err_kind(&e)),
+            }
+        });
+        if let Some(b) = res {
             accepted += 1;
             // every accepted board must satisfy the validity clauses (specification side)
             let p = pos64(&view(&b));
